@@ -266,9 +266,14 @@ def r4_hash(repo):
                    isinstance(n.func, ast.Name) and n.func.id in ("id", "object")]
             sup = [n for n in iter_own_nodes(h.node) if isinstance(n, ast.Call) and
                    src(n.func).startswith("object.__")]
-            obs.append(Ob("C13-R4", "%s.%s" % (c.qualname, name), _w(h), not bad and not sup,
-                          "%s must be computed from pickled attributes, not from object identity; found %s"
-                          % (name, bad + [src(s) for s in sup])))
+            stores = [src(n)[:50] for n in iter_own_nodes(h.node)
+                      if isinstance(n, (ast.Assign, ast.AugAssign)) and any(
+                          isinstance(t, (ast.Attribute, ast.Subscript)) for t in
+                          (n.targets if isinstance(n, ast.Assign) else [n.target]))]
+            obs.append(Ob("C13-R4", "%s.%s" % (c.qualname, name), _w(h), not bad and not sup and not stores,
+                          "%s must be computed from pickled attributes, not from object identity, and must not memoise its "
+                          "result in the object (a cached str-hash is pickled and is stale in the replaying process, whose "
+                          "hash salt differs); found %s %s" % (name, bad + [src(s) for s in sup], stores)))
     return obs
 
 
@@ -358,6 +363,11 @@ def _v_cached_load(tree):
     f.decorator_list.append(V.parse_expr("functools.lru_cache(maxsize=None)"))
 
 
+def _v_cached_hash(tree):
+    f = V.find_def(tree, "Builtin.__hash__")
+    f.body = V.parse_stmts("h = getattr(self, '_hash', None)\nif h is None:\n    h = hash(str(self.__class__))\n    self._hash = h\nreturn h")
+
+
 def _t_rename(tree):
     f = V.find_def(tree, "process_cp_transformations")
     V.rename_local(f, "program_str", "text")
@@ -375,6 +385,7 @@ def variants():
         V.Variant("ncp text translated from the pre-mutation program", "hephaestus.py", _v_text_of_other_program, {"C13-R2"}),
         V.Variant("--replay regenerates instead of loading", "src/modules/processor.py", _v_replay_regenerates, {"C13-R2"}),
         V.Variant("load_program cached per path", "src/utils.py", _v_cached_load, {"C13-R1"}),
+        V.Variant("Builtin.__hash__ memoises a salted hash in the instance", "src/ir/types.py", _v_cached_hash, {"C13-R4"}),
         V.Variant("twin: rename program_str", "hephaestus.py", _t_rename, None, twin=True),
         V.Variant("twin: whole tree reformatted by ast.unparse", None, None, None, twin=True),
     ]
